@@ -295,11 +295,24 @@ func cmdC06(seed uint64, tier, outdir string) {
 					if lw != lettersLower(core) || lw == "" {
 						continue
 					}
+					// the other spelling, sometimes glued to a parenthesis or written with character references
+					// (the word then starts with a rune that is not a letter; cleaning leaves the same letters)
+					wrap := func(v string) string {
+						switch r.intn(6) {
+						case 0:
+							return "(" + v + ")"
+						case 1:
+							return "&quot;" + v + "&quot;"
+						case 2:
+							return "(" + v
+						}
+						return v
+					}
 					if v, ok := iw[lw]; ok && r.chance(1, 2) {
-						ws[j] = v + w[len(core):]
+						ws[j] = wrap(v) + w[len(core):]
 						changed = true
 					} else if ks, ok := rev[lw]; ok && r.chance(1, 2) {
-						ws[j] = ks[r.intn(len(ks))] + w[len(core):]
+						ws[j] = wrap(ks[r.intn(len(ks))]) + w[len(core):]
 						changed = true
 					}
 				}
